@@ -188,6 +188,12 @@ class Interp:
             # concretely false on this path: refuted iff the path is reachable
             self.vcs.append((name, list(self.pc), z3.BoolVal(False), meta))
             raise PathCut()
+        if z3.is_and(goal) and goal.num_args() > 1:
+            # goals are split per conjunct (small queries are the stable ones)
+            for k, g in enumerate(goal.children()):
+                self.oblige(f"{name}.c{k}", g, meta)
+            self.ex.ob_names[name] -= 1
+            return
         goal = z3.simplify(goal)
         if z3.is_true(goal):
             self.trivial.append(name)
@@ -222,6 +228,12 @@ class Interp:
 
     def fresh_str(self, prefix="s"):
         return SStr(self.fresh(prefix, z3.StringSort()))
+
+    def named_str(self, prefix, term):
+        """introduce a name for an intermediate string (keeps solver terms small)"""
+        c = self.fresh(prefix, z3.StringSort())
+        self.assume(c == term)
+        return SStr(c)
 
     def fresh_int(self, prefix="i"):
         return SInt(self.fresh(prefix, z3.IntSort()))
